@@ -178,6 +178,16 @@ var targets = []Target{
 	{Func: "determinesCallSuccess", Out: "dcsSucceeded", Params: "(mt : Z) (resCode : Z) (errKey : list Z)", Ret: "bool", RetIdx: 0,
 		Hints:  map[string]string{"f.messageType()": "mt", "isCallResOK(f)": "(isCallResOK resCode)"},
 		SHints: map[string]string{"msg := newLazyError(f).Code().MetricsKey()": "let msg := errKey in"}},
+	// C05 -- preinit_connection.go: the deadline the handshake puts on the connection.
+	// now = time.Now() in ns, (ctx_has, ctx_deadline) = ctx.Deadline(); the result is the argument
+	// of c.SetDeadline(deadline): the returned closure (which clears the deadline again) stands for it
+	{Func: "setInitDeadline", Out: "setInitDeadline", File: "GenBudget", Params: "(now : Z) (ctx_has : bool) (ctx_deadline : Z)", Ret: "Z",
+		Hints: map[string]string{"time.Now()": "now", "call:time.Now().Add": "Z.add", "recv:time.Now().Add": "",
+			"func() {\n\tc.SetDeadline(time.Time{})\n}": "deadline"},
+		SHints: map[string]string{
+			"deadline, ok := ctx.Deadline()": "let deadline := ctx_deadline in let ok := ctx_has in",
+			"c.SetDeadline(deadline)":        "",
+		}},
 	{Func: "determinesCallSuccess", Out: "dcsFailMsg", Params: "(mt : Z) (resCode : Z) (errKey : list Z)", Ret: "list Z", RetIdx: 1,
 		Hints:  map[string]string{"f.messageType()": "mt", "isCallResOK(f)": "(isCallResOK resCode)"},
 		SHints: map[string]string{"msg := newLazyError(f).Code().MetricsKey()": "let msg := errKey in"}},
